@@ -23,7 +23,7 @@ BW_PALETTE = (
 )
 
 SYSTEM_MAC_16COLORS_PALETTE = (
-
+  255, 255, 255, 0, # white
   255, 255, 0, 0,   # yellow
   255, 160, 0, 0,   # orange
   255, 0, 0, 0,     # red
